@@ -114,14 +114,19 @@ class Check:
         return []
 
 
+INTERPRETER_VARS = ('PYTHONOPTIMIZE', 'PYTHONWARNINGS', 'PYTHONDEVMODE')
+
+
 class Pools:
     def __init__(self):
         self.pools = {}
 
     def get(self, hashseed, n=None):
+        # key: '<hash seed>' or '<hash seed>|NAME=value|...' (variables the interpreter reads when it starts)
         key = str(hashseed)
         if key not in self.pools:
-            self.pools[key] = runner.Pool(n=n, hashseed=key)
+            hs, *extra = key.split('|')
+            self.pools[key] = runner.Pool(n=n, hashseed=hs, extra_env=dict(e.split('=', 1) for e in extra) or None)
         return self.pools[key]
 
     def close(self):
@@ -133,7 +138,13 @@ def _run_all(pools, specs):
     """Runs specs (each may carry 'hashseed') and returns outcomes in order."""
     by_seed = {}
     for i, s in enumerate(specs):
-        by_seed.setdefault(str(s.get('hashseed', '0')), []).append(i)
+        key = str(s.get('hashseed', '0'))
+        for name in INTERPRETER_VARS:
+            # read by the interpreter when it starts: setting it in the forked child would change nothing, so such runs get
+            # their own workers started with it
+            if name in (s.get('env') or {}) and s['env'][name] is not None:
+                key += f'|{name}={s["env"][name]}'
+        by_seed.setdefault(key, []).append(i)
     outs = [None] * len(specs)
     for hs, idxs in by_seed.items():
         nw = None
